@@ -372,7 +372,7 @@ def main():
     for k in ("connectedpixels", "blobs"): mod.load(ir[k])
     ck.encoded("src/blobs.c:add_pixel", "src/blobs.c:merge", "src/blobs.c:compute_moments", "src/connectedpixels.c:blobproperties", "src/connectedpixels.c:bloboverlaps",
                "src/connectedpixels.c:connectedpixels", "src/blobs.c:dset_*", "ImageD11/labelimage.py:peaksearch/mergelast/outputpeaks/finalise (call protocol mirrored)")
-    protos = [(2, 2, 2), (3, 2, 2)] + ([(2, 2, 3), (2, 3, 2), (3, 1, 4), (4, 2, 2)] if thorough else [])
+    protos = [(2, 2, 2), (3, 2, 2)] + ([(2, 2, 3), (2, 3, 2), (3, 1, 4)] if thorough else [])      # (4, 2, 2) = 65536 patterns x 4 frames ran beyond an hour
     ck.bound("units add_pixel / merge / compute_moments: all 36 row fields, pixel position and intensity symbolic - unbounded in values",
              "protocol: every threshold pattern of (frames x rows x cols) in %s, symbolic intensities, threshold >= 0 and per-frame omega values" % protos,
              "bloboverlaps unit: 1 x %d pixel label images with every raster-ordered labelling of <= %d previous / <= %d current blobs, all result rows symbolic" % ((5, 3, 4) if thorough else (4, 2, 4)),
